@@ -471,7 +471,16 @@ func (e *expander) expandExpr(expr *Expr) []*Expr {
 		return []*Expr{ret}
 	case List:
 		out := &Expr{Kind: List, Origin: expr.Origin, ListFlags: expr.ListFlags}
+		// The element of a list has its own position space (the grammar loader numbers it like a
+		// top-level rule), and after extraction its commands are no longer part of the enclosing rule.
+		// Resolve the nonterminals extracted from the element right here, in a scope of their own.
+		outer := e.createdNts
+		e.createdNts = make(map[int]int)
 		out.Sub = e.expandExpr(expr.Sub[0])
+		for _, sub := range out.Sub {
+			updateArgRefs(sub, e.createdNts)
+		}
+		e.createdNts = outer
 		if len(out.Sub) > 1 {
 			// We support a choice of elements
 			out.Sub = []*Expr{{Kind: Choice, Sub: out.Sub, Origin: expr.Origin}}
